@@ -957,3 +957,23 @@ pub mod verif_hooks {
         });
     }
 }
+
+/// Verification hooks (only with `--cfg yamaquasi_verif`): exponentiation helpers and the
+/// polynomial-evaluation stage 2 (add-only wrappers).
+#[cfg(yamaquasi_verif)]
+pub mod verif_hooks_stage2 {
+    use super::*;
+
+    pub fn vh_exp_modn(zn: &ZmodN, g: &MInt, exp: u64) -> MInt {
+        exp_modn(zn, g, exp)
+    }
+    pub fn vh_exp_modn_large(zn: &ZmodN, g: &MInt, exp: &U1024) -> MInt {
+        exp_modn_large(zn, g, exp)
+    }
+    pub fn vh_pm1_stage2_polyeval(zn: &ZmodN, b2: f64, g: MInt) -> (Vec<Uint>, Uint) {
+        pm1_stage2_polyeval(zn, b2, g)
+    }
+    pub fn vh_multieval_threshold() -> f64 {
+        MULTIEVAL_THRESHOLD
+    }
+}
